@@ -1,105 +1,1537 @@
-//! Rename domain (C16) — exploratory probe (to be replaced).
+//! Rename domain (C16): rename preserves program meaning and is reversible.
+//!
+//! A script is an abstract project in the vocabulary of `spec/Rename.tla` — a typed *skeleton*
+//! (scope forest: global / namespace / program / function / function block / method / struct;
+//! declaration slots with kinds; reference slots with the declaration they are meant to denote,
+//! lexical or member lookups; the statements the references sit in), the NAMES of the
+//! declarations (chosen by TLC from the model or by the seeded generator here, so that
+//! collisions, shadowing and case variants occur), and a list of rename requests (occurrence,
+//! new name, class of the new name).
+//!
+//! `run` renders the project as a multi-file Structured Text project in which every
+//! declaration feeds an observable program output, and executes every request on the REAL code
+//! through its public API only: `trust_ide::rename::rename` on a `trust_hir::Database`, the
+//! edits applied to the texts, re-analysis of the edited project (`Database::diagnostics`),
+//! execution of both projects with `TestHarness::from_sources` on an input trace, and a rename
+//! back to the old name.  One ndjson event per specification action is recorded
+//! (`Reset` / `Check` / `Rename` / `Back`); `RenameTrace.tla` judges them.
+//!
+//! Process structure: the parent splits the scripts over child processes of this same binary
+//! (address-space rlimit); a panic of the code under test is caught in the child
+//! (`catch_unwind`) and recorded as data (`"res":"panic"`); a child killed by a signal (abort,
+//! stack overflow) is recorded by the parent as `{"a":"Panic",..}` for the script that was
+//! running and the remaining scripts are resumed in a new child.
 use crate::util::*;
+use rand::{rngs::StdRng, seq::SliceRandom, Rng, SeedableRng};
+use serde::{Deserialize, Serialize};
 use serde_json::{json, Value as J};
+use std::collections::{BTreeMap, BTreeSet};
+use std::panic::{catch_unwind, AssertUnwindSafe};
+use std::sync::Mutex;
 use text_size::TextSize;
 use trust_hir::db::{Database, FileId, SemanticDatabase, SourceDatabase};
 use trust_runtime::harness::TestHarness;
+use trust_runtime::value::Value;
 
-pub fn gen(_args: &[String]) -> i32 {
-    0
+// ------------------------------------------------------------------ skeleton
+// ids are 1-based; element i of a vector is id i + 1 (JSON arrays are 1-based sequences in TLA+)
+#[derive(Clone, Debug, Serialize, Deserialize)]
+pub struct Sc {
+    pub parent: usize, // 0: root
+    pub kind: String,  // global namespace program function fb method struct
+    pub decl: usize,   // the declaration that owns the scope (0: global)
+    pub file: usize,   // file of a top-level unit (inner scopes: the file of the unit around them)
+}
+#[derive(Clone, Debug, Serialize, Deserialize)]
+pub struct De {
+    pub scope: usize,
+    pub kind: String, // gvar var param outvar svar inst field function method fb program struct namespace
+    pub owns: usize,  // scope owned (0: none)
+    pub ty: Vec<usize>, // references spelling the type of an svar / inst declaration
+    pub init: i64,
+}
+#[derive(Clone, Debug, Serialize, Deserialize)]
+pub struct Re {
+    pub site: usize, // lex: the scope the lookup starts in; mem: the only scope looked at
+    pub tgt: usize,  // the declaration the reference is meant to denote
+    pub mode: String, // lex | mem
+    pub role: String, // value call ret type qual qcall qtype field member mcall namedarg extdecl cfgprog base
+}
+#[derive(Clone, Debug, Serialize, Deserialize)]
+pub struct St {
+    pub scope: usize,
+    pub form: String, // value call callnamed qcall fset fget fbcall fbout mcall oset ret ext cfgprog
+    pub refs: Vec<usize>,
+    pub k: i64,
+}
+#[derive(Clone, Debug, Default, Serialize, Deserialize)]
+pub struct Skel {
+    pub scopes: Vec<Sc>,
+    pub decls: Vec<De>,
+    pub refs: Vec<Re>,
+    pub stmts: Vec<St>,
+    pub nfiles: usize,
+    pub cfgfile: usize,
 }
 
-fn nth_find(text: &str, pat: &str, nth: usize) -> Option<usize> {
-    let mut from = 0;
-    let mut k = 0;
-    while let Some(p) = text[from..].find(pat) {
-        if k == nth {
-            return Some(from + p);
+impl Skel {
+    fn sc(&self, id: usize) -> &Sc {
+        &self.scopes[id - 1]
+    }
+    fn de(&self, id: usize) -> &De {
+        &self.decls[id - 1]
+    }
+    fn re(&self, id: usize) -> &Re {
+        &self.refs[id - 1]
+    }
+    fn add_scope(&mut self, parent: usize, kind: &str, decl: usize, file: usize) -> usize {
+        self.scopes.push(Sc { parent, kind: kind.into(), decl, file });
+        self.scopes.len()
+    }
+    fn add_decl(&mut self, scope: usize, kind: &str, init: i64) -> usize {
+        self.decls.push(De { scope, kind: kind.into(), owns: 0, ty: vec![], init });
+        self.decls.len()
+    }
+    fn add_ref(&mut self, site: usize, tgt: usize, mode: &str, role: &str) -> usize {
+        self.refs.push(Re { site, tgt, mode: mode.into(), role: role.into() });
+        self.refs.len()
+    }
+    fn add_stmt(&mut self, scope: usize, form: &str, refs: Vec<usize>, k: i64) {
+        self.stmts.push(St { scope, form: form.into(), refs, k });
+    }
+    /// A unit (POU / type / namespace): declaration in `parent` owning a new scope.
+    fn add_unit(&mut self, parent: usize, kind: &str, file: usize) -> (usize, usize) {
+        let d = self.add_decl(parent, kind, 0);
+        let s = self.add_scope(parent, kind, d, file);
+        self.decls[d - 1].owns = s;
+        (d, s)
+    }
+    fn decls_in(&self, scope: usize, kind: &str) -> Vec<usize> {
+        (1..=self.decls.len()).filter(|&i| self.de(i).scope == scope && self.de(i).kind == kind).collect()
+    }
+    fn chain(&self, mut s: usize) -> Vec<usize> {
+        let mut v = vec![];
+        while s != 0 {
+            v.push(s);
+            s = self.sc(s).parent;
         }
-        k += 1;
-        from += p + 1;
+        v
+    }
+}
+
+// ------------------------------------------------------------------ the model's lookup (for the generator only)
+/// The declaration a reference named `name` denotes under the naming `names` (0: none):
+/// Rename!Resolve.  Used only to generate fully resolved projects; the verdicts are TLC's.
+fn resolve(sk: &Skel, names: &[String], site: usize, mode: &str, name: &str) -> usize {
+    if mode == "mem" {
+        return (1..=sk.decls.len()).find(|&d| sk.de(d).scope == site && names[d - 1] == name).unwrap_or(0);
+    }
+    for s in sk.chain(site) {
+        if let Some(d) = (1..=sk.decls.len()).find(|&d| sk.de(d).scope == s && names[d - 1] == name) {
+            return d;
+        }
+    }
+    0
+}
+fn well_formed(sk: &Skel, names: &[String]) -> bool {
+    let mut seen = BTreeSet::new();
+    (1..=sk.decls.len()).all(|d| seen.insert((sk.de(d).scope, names[d - 1].clone())))
+}
+fn intended(sk: &Skel, names: &[String]) -> bool {
+    (1..=sk.refs.len()).all(|r| {
+        let x = sk.re(r);
+        resolve(sk, names, x.site, &x.mode, &names[x.tgt - 1]) == x.tgt
+    })
+}
+
+// ------------------------------------------------------------------ generation of skeletons
+const POOL: [&str; 10] = ["a", "b", "c", "d", "e", "f", "g", "h", "i", "j"];
+
+fn body_stmts(sk: &mut Skel, rng: &mut StdRng, scope: usize, n: usize, funcs: &[usize], nsfuncs: &[(usize, usize)], gvars: &[usize]) {
+    // what is structurally visible from `scope`
+    let kind = sk.sc(scope).kind.clone();
+    let mut values: Vec<usize> = vec![];
+    for s in sk.chain(scope) {
+        if s == 1 {
+            break;
+        }
+        if sk.sc(s).kind == "namespace" {
+            continue;
+        }
+        for k in ["var", "param", "outvar"] {
+            values.extend(sk.decls_in(s, k));
+        }
+    }
+    let can_ext = kind == "program" || kind == "fb";
+    let svars: Vec<usize> = sk.decls_in(scope, "svar");
+    let insts: Vec<usize> = sk.decls_in(scope, "inst");
+    let own_methods: Vec<usize> = match kind.as_str() {
+        "fb" => sk.decls_in(scope, "method"),
+        _ => vec![],
+    };
+    let mut used_g: Vec<usize> = vec![];
+    for i in 0..n {
+        let k = (i as i64) + 2;
+        let mut forms: Vec<&str> = vec![];
+        if !values.is_empty() {
+            forms.extend(["value", "value"]);
+        }
+        if !funcs.is_empty() {
+            forms.extend(["call", "callnamed"]);
+        }
+        if !nsfuncs.is_empty() && kind != "method" {
+            forms.push("qcall");
+        }
+        if can_ext && !gvars.is_empty() {
+            forms.push("gvalue");
+        }
+        if !svars.is_empty() {
+            forms.extend(["fset", "fget"]);
+        }
+        if !insts.is_empty() {
+            forms.extend(["fbcall", "fbout", "mcall"]);
+        }
+        if !own_methods.is_empty() {
+            forms.push("owncall");
+        }
+        if forms.is_empty() {
+            return;
+        }
+        let pick = |rng: &mut StdRng, v: &[usize]| v[rng.gen_range(0..v.len())];
+        match *forms.choose(rng).unwrap() {
+            "value" => {
+                let t = pick(rng, &values);
+                let r = sk.add_ref(scope, t, "lex", "value");
+                sk.add_stmt(scope, "value", vec![r], k);
+            }
+            "gvalue" => {
+                let t = pick(rng, gvars);
+                if !used_g.contains(&t) {
+                    used_g.push(t);
+                    let e = sk.add_ref(scope, t, "lex", "extdecl");
+                    sk.add_stmt(scope, "ext", vec![e], 0);
+                }
+                let r = sk.add_ref(scope, t, "lex", "value");
+                sk.add_stmt(scope, "value", vec![r], k);
+            }
+            f @ ("call" | "callnamed" | "owncall") => {
+                let t = if f == "owncall" { pick(rng, &own_methods) } else { pick(rng, funcs) };
+                let mut refs = vec![sk.add_ref(scope, t, "lex", "call")];
+                let named = f == "callnamed" || (f == "owncall" && rng.gen_bool(0.4));
+                if named {
+                    let owned = sk.de(t).owns;
+                    for p in sk.decls_in(owned, "param") {
+                        refs.push(sk.add_ref(owned, p, "mem", "namedarg"));
+                    }
+                }
+                sk.add_stmt(scope, if named { "callnamed" } else { "call" }, refs, k);
+            }
+            "qcall" => {
+                let (nsd, f) = nsfuncs[rng.gen_range(0..nsfuncs.len())];
+                let q = sk.add_ref(scope, nsd, "lex", "qual");
+                let c = sk.add_ref(sk.de(nsd).owns, f, "mem", "qcall");
+                sk.add_stmt(scope, "qcall", vec![q, c], k);
+            }
+            f @ ("fset" | "fget") => {
+                let v = pick(rng, &svars);
+                // the struct type of v: target of the last reference of its type path
+                let st = sk.re(*sk.de(v).ty.last().unwrap()).tgt;
+                let fields = sk.decls_in(sk.de(st).owns, "field");
+                let fld = pick(rng, &fields);
+                let b = sk.add_ref(scope, v, "lex", "base");
+                let m = sk.add_ref(sk.de(st).owns, fld, "mem", "field");
+                sk.add_stmt(scope, f, vec![b, m], k);
+            }
+            f @ ("fbcall" | "fbout" | "mcall") => {
+                let v = pick(rng, &insts);
+                let fb = sk.re(*sk.de(v).ty.last().unwrap()).tgt;
+                let fbs = sk.de(fb).owns;
+                let outs = sk.decls_in(fbs, "outvar");
+                let meths = sk.decls_in(fbs, "method");
+                let params = sk.decls_in(fbs, "param");
+                match f {
+                    "fbout" if !outs.is_empty() => {
+                        let b = sk.add_ref(scope, v, "lex", "base");
+                        let m = sk.add_ref(fbs, outs[0], "mem", "member");
+                        sk.add_stmt(scope, "fbout", vec![b, m], k);
+                    }
+                    "mcall" if !meths.is_empty() => {
+                        let b = sk.add_ref(scope, v, "lex", "base");
+                        let m = sk.add_ref(fbs, pick(rng, &meths), "mem", "mcall");
+                        sk.add_stmt(scope, "mcall", vec![b, m], k);
+                    }
+                    _ => {
+                        let b1 = sk.add_ref(scope, v, "lex", "base");
+                        let b2 = sk.add_ref(scope, v, "lex", "base");
+                        let mut refs = vec![b1, b2];
+                        if !params.is_empty() {
+                            refs.push(sk.add_ref(fbs, params[0], "mem", "namedarg"));
+                        }
+                        sk.add_stmt(scope, "fbcall", refs, k);
+                    }
+                }
+            }
+            _ => unreachable!(),
+        }
+    }
+}
+
+fn callable(sk: &mut Skel, rng: &mut StdRng, parent: usize, kind: &str, file: usize, small: bool) -> (usize, usize) {
+    let (d, s) = sk.add_unit(parent, kind, file);
+    for _ in 0..rng.gen_range(1..=if small { 1 } else { 2 }) {
+        sk.add_decl(s, "param", 0);
+    }
+    for _ in 0..rng.gen_range(0..=if small { 1 } else { 2 }) {
+        let init = rng.gen_range(1..40);
+        sk.add_decl(s, "var", init);
+    }
+    (d, s)
+}
+
+/// A random typed skeleton.  `small`: few declarations (for the TLC catalogue, where the
+/// specification enumerates the namings).
+pub fn gen_skeleton(rng: &mut StdRng, small: bool) -> Skel {
+    let mut sk = Skel::default();
+    sk.nfiles = rng.gen_range(1..=3);
+    sk.cfgfile = rng.gen_range(0..sk.nfiles);
+    let nf = sk.nfiles;
+    sk.add_scope(0, "global", 0, 0);
+    let few = |rng: &mut StdRng, lo: usize, hi: usize| rng.gen_range(lo..=if small { lo.max(hi.saturating_sub(1)) } else { hi });
+    // global variables
+    let mut gvars = vec![];
+    if rng.gen_bool(if small { 0.3 } else { 0.4 }) {
+        for _ in 0..few(rng, 1, 2) {
+            let init = rng.gen_range(1..40);
+            gvars.push(sk.add_decl(1, "gvar", init));
+        }
+    }
+    // global functions (a function only calls functions created before it: no recursion)
+    let mut funcs: Vec<usize> = vec![];
+    let mut bodies: Vec<(usize, Vec<usize>, Vec<(usize, usize)>)> = vec![];
+    for _ in 0..few(rng, 1, 2) {
+        let file = rng.gen_range(0..nf);
+        let (d, s) = callable(&mut sk, rng, 1, "function", file, small);
+        bodies.push((s, funcs.clone(), vec![]));
+        funcs.push(d);
+    }
+    // a namespace with functions and possibly a structure type
+    let mut nsfuncs: Vec<(usize, usize)> = vec![];
+    let mut structs: Vec<(usize, usize)> = vec![]; // (namespace decl or 0, struct decl)
+    if rng.gen_bool(if small { 0.35 } else { 0.5 }) {
+        let file = rng.gen_range(0..nf);
+        let (nsd, nss) = sk.add_unit(1, "namespace", file);
+        let file = sk.sc(nss).file;
+        for _ in 0..few(rng, 1, 2) {
+            let (d, s) = callable(&mut sk, rng, nss, "function", file, small);
+            bodies.push((s, funcs.clone(), vec![]));
+            nsfuncs.push((nsd, d));
+        }
+        if rng.gen_bool(0.5) {
+            let (d, s) = sk.add_unit(nss, "struct", file);
+            for _ in 0..few(rng, 1, 2) {
+                sk.add_decl(s, "field", 0);
+            }
+            structs.push((nsd, d));
+        }
+    }
+    if rng.gen_bool(if small { 0.35 } else { 0.6 }) {
+        let (d, s) = sk.add_unit(1, "struct", rng.gen_range(0..nf));
+        for _ in 0..few(rng, 1, 2) {
+            sk.add_decl(s, "field", 0);
+        }
+        structs.push((0, d));
+    }
+    // a function block with an optional method
+    let mut fbs: Vec<usize> = vec![];
+    if rng.gen_bool(if small { 0.4 } else { 0.7 }) {
+        let (d, s) = sk.add_unit(1, "fb", rng.gen_range(0..nf));
+        let file = sk.sc(s).file;
+        if rng.gen_bool(0.6) {
+            sk.add_decl(s, "param", 0);
+        }
+        if rng.gen_bool(0.6) {
+            sk.add_decl(s, "outvar", 0);
+        }
+        for _ in 0..few(rng, 0, 2) {
+            let init = rng.gen_range(1..40);
+            sk.add_decl(s, "var", init);
+        }
+        if rng.gen_bool(0.7) {
+            let (_, ms) = callable(&mut sk, rng, s, "method", file, small);
+            bodies.push((ms, funcs.clone(), vec![]));
+        }
+        bodies.push((s, funcs.clone(), nsfuncs.clone()));
+        fbs.push(d);
+    }
+    // programs
+    for _ in 0..few(rng, 1, 2) {
+        let (_, s) = sk.add_unit(1, "program", rng.gen_range(0..nf));
+        for _ in 0..few(rng, 0, 3) {
+            let init = rng.gen_range(1..40);
+            sk.add_decl(s, "var", init);
+        }
+        if !structs.is_empty() && rng.gen_bool(0.7) {
+            let (nsd, st) = structs[rng.gen_range(0..structs.len())];
+            let v = sk.add_decl(s, "svar", 0);
+            let ty = if nsd != 0 {
+                vec![sk.add_ref(s, nsd, "lex", "qual"), sk.add_ref(sk.de(nsd).owns, st, "mem", "qtype")]
+            } else {
+                vec![sk.add_ref(s, st, "lex", "type")]
+            };
+            sk.decls[v - 1].ty = ty;
+        }
+        if !fbs.is_empty() && rng.gen_bool(0.8) {
+            let v = sk.add_decl(s, "inst", 0);
+            let ty = vec![sk.add_ref(s, fbs[0], "lex", "type")];
+            sk.decls[v - 1].ty = ty;
+        }
+        bodies.push((s, funcs.clone(), nsfuncs.clone()));
+    }
+    // statements
+    for (s, fs, nfs) in bodies {
+        let kind = sk.sc(s).kind.clone();
+        let n = match kind.as_str() {
+            "program" => few(rng, 2, 6),
+            _ => few(rng, 1, 3),
+        };
+        body_stmts(&mut sk, rng, s, n, &fs, &nfs, &gvars);
+        match kind.as_str() {
+            "function" | "method" => {
+                let d = sk.sc(s).decl;
+                let r = sk.add_ref(s, d, "lex", "ret");
+                sk.add_stmt(s, "ret", vec![r], 0);
+            }
+            "fb" => {
+                if let Some(&o) = sk.decls_in(s, "outvar").first() {
+                    let r = sk.add_ref(s, o, "lex", "value");
+                    sk.add_stmt(s, "oset", vec![r], 5);
+                }
+            }
+            _ => {}
+        }
+    }
+    // a configuration is needed as soon as there are global variables: it names the programs
+    if !gvars.is_empty() {
+        for p in sk.decls_in(1, "program") {
+            let r = sk.add_ref(1, p, "lex", "cfgprog");
+            sk.add_stmt(1, "cfgprog", vec![r], 0);
+        }
+    }
+    sk
+}
+
+// ------------------------------------------------------------------ generation of scripts
+const KEYWORDS: [&str; 14] = ["IF", "PROGRAM", "INT", "VAR", "END_VAR", "FUNCTION", "TRUE", "WHILE", "RETURN", "DINT", "AND", "MOD", "end_if", "Then"];
+const INVALID: [&str; 9] = ["1x", "a-b", "a b", "", "x$y", "n\u{e9}", "a__b", "a_", "9"];
+
+/// The name of a unit (a declaration that owns a scope: POU, method, type, namespace) is also
+/// the name of another declaration somewhere in the project (PROGRAM P and METHOD P, FUNCTION
+/// F and FUNCTION Ns.F, FUNCTION F and a variable F).
+fn homonyms(sk: &Skel, names: &[String]) -> bool {
+    (1..=sk.decls.len()).filter(|&d| sk.de(d).owns != 0).any(|d| (1..=sk.decls.len()).any(|e| d != e && names[d - 1] == names[e - 1]))
+}
+
+fn random_names(sk: &Skel, rng: &mut StdRng, allow_homonyms: bool) -> Option<Vec<String>> {
+    for attempt in 0..400 {
+        // unit names are unique in the project (unless homonyms are wanted): the other names come
+        // from a small pool, so that variables, parameters and fields collide and shadow a lot
+        let nunits = (1..=sk.decls.len()).filter(|&d| sk.de(d).owns != 0).count();
+        let npool = if allow_homonyms { 4 + attempt / 100 } else { nunits + 3 + attempt / 100 };
+        let pool = &POOL[..npool.min(POOL.len())];
+        let mut names: Vec<String> = vec![];
+        let mut ok = true;
+        for d in 1..=sk.decls.len() {
+            let unit = sk.de(d).owns != 0;
+            let used: Vec<&String> = (1..d)
+                .filter(|&e| sk.de(e).scope == sk.de(d).scope || (!allow_homonyms && (unit || sk.de(e).owns != 0)))
+                .map(|e| &names[e - 1])
+                .collect();
+            let free: Vec<&&str> = pool.iter().filter(|n| !used.iter().any(|u| u == *n)).collect();
+            if free.is_empty() {
+                ok = false;
+                break;
+            }
+            names.push(free[rng.gen_range(0..free.len())].to_string());
+        }
+        if ok && well_formed(sk, &names) && intended(sk, &names) && (allow_homonyms || !homonyms(sk, &names)) {
+            return Some(names);
+        }
     }
     None
 }
 
-fn show_diags(db: &Database, n: usize) {
-    for f in 0..n {
-        for d in db.diagnostics(FileId(f as u32)).iter() {
-            println!("   diag file{f} {:?} {:?} {:?} {}", d.code, d.severity, d.range, d.message);
+fn random_reqs(sk: &Skel, names: &[String], rng: &mut StdRng, n: usize) -> Vec<J> {
+    let mut reqs = vec![];
+    for _ in 0..n {
+        let nd = sk.decls.len();
+        let nr = sk.refs.len();
+        let (t, id) = if nr == 0 || rng.gen_bool(0.45) { ("d", rng.gen_range(1..=nd)) } else { ("r", rng.gen_range(1..=nr)) };
+        let old = if t == "d" { names[id - 1].clone() } else { names[sk.re(id).tgt - 1].clone() };
+        let r = rng.gen_range(0..100);
+        let (new, cls) = if r < 50 {
+            (names[rng.gen_range(0..names.len())].clone(), "name") // a name used somewhere in the project
+        } else if r < 62 {
+            ("fresh".to_string(), "name")
+        } else if r < 72 {
+            (old, "name") // only the spelling changes
+        } else if r < 86 {
+            ("kw".to_string(), "keyword")
+        } else {
+            ("bad".to_string(), "invalid")
+        };
+        reqs.push(json!({"t": t, "id": id, "new": new, "cls": cls}));
+    }
+    reqs
+}
+
+pub fn gen(args: &[String]) -> i32 {
+    let seed = arg_u64(args, "--seed", 1);
+    let mut rng = StdRng::seed_from_u64(seed ^ 0xc16_5eed);
+    let mut o = Out::create(arg(args, "--out").expect("--out"));
+    if let Some(n) = arg(args, "--skeletons") {
+        // the catalogue of small typed skeletons the specification names (TLC: IOEnv.SKEL)
+        let n: usize = n.parse().expect("--skeletons N");
+        let mut k = 0;
+        while k < n {
+            let sk = gen_skeleton(&mut rng, true);
+            if sk.decls.len() <= arg_u64(args, "--max-decls", 11) as usize && random_names(&sk, &mut rng, false).is_some() {
+                o.line(&serde_json::to_value(&sk).unwrap());
+                k += 1;
+            }
+        }
+        o.flush();
+        return 0;
+    }
+    let runs = arg_u64(args, "--runs", 100) as usize;
+    let nreq = arg_u64(args, "--reqs", 10) as usize;
+    let mut k = 0;
+    while k < runs {
+        let sk = gen_skeleton(&mut rng, false);
+        // one project in seven may have homonymous scope owners
+        let hom = k % 7 == 3;
+        let Some(names) = random_names(&sk, &mut rng, hom) else { continue };
+        let reqs = random_reqs(&sk, &names, &mut rng, nreq);
+        o.line(&json!({"sk": sk, "names": names, "reqs": reqs, "seed": rng.gen::<u32>(), "from": "random"}));
+        k += 1;
+    }
+    o.flush();
+    0
+}
+
+// ------------------------------------------------------------------ rendering
+fn ident_of(model: &str) -> String {
+    match model {
+        "a" => "na".into(),
+        "b" => "nbb".into(),
+        "c" => "ncx".into(),
+        "d" => "nd_4".into(),
+        "e" => "ne5e".into(),
+        "f" => "nff".into(),
+        "g" => "ng".into(),
+        "h" => "nh_h".into(),
+        "i" => "ni2".into(),
+        "j" => "njjjj".into(),
+        "fresh" => "nfresh9".into(),
+        o => format!("n_{o}"),
+    }
+}
+fn spell(id: &str, cs: u8) -> String {
+    match cs {
+        1 => id.to_ascii_uppercase(),
+        2 => {
+            let mut c = id.chars();
+            match c.next() {
+                Some(f) => f.to_ascii_uppercase().to_string() + c.as_str(),
+                None => String::new(),
+            }
+        }
+        _ => id.to_string(),
+    }
+}
+
+#[derive(Clone, Debug, PartialEq, Eq, PartialOrd, Ord)]
+pub enum Occ {
+    D(usize),
+    R(usize),
+}
+#[derive(Clone, Debug)]
+pub struct Site {
+    pub occ: Occ,
+    pub file: usize,
+    pub start: usize,
+    pub end: usize,
+}
+pub struct Rendered {
+    pub texts: Vec<String>,
+    pub sites: Vec<Site>,
+    pub outs: Vec<String>, // observable program outputs
+    pub ins: Vec<String>,  // program inputs
+}
+
+struct Rn<'a> {
+    sk: &'a Skel,
+    sp_d: Vec<String>,
+    sp_r: Vec<String>,
+    texts: Vec<String>,
+    sites: Vec<Site>,
+}
+impl<'a> Rn<'a> {
+    fn put(&mut self, f: usize, s: &str) {
+        self.texts[f].push_str(s);
+    }
+    fn d(&mut self, f: usize, d: usize) {
+        let start = self.texts[f].len();
+        let s = self.sp_d[d - 1].clone();
+        self.texts[f].push_str(&s);
+        self.sites.push(Site { occ: Occ::D(d), file: f, start, end: start + s.len() });
+    }
+    fn r(&mut self, f: usize, r: usize) {
+        let start = self.texts[f].len();
+        let s = self.sp_r[r - 1].clone();
+        self.texts[f].push_str(&s);
+        self.sites.push(Site { occ: Occ::R(r), file: f, start, end: start + s.len() });
+    }
+    fn nparams(&self, callee: usize) -> usize {
+        self.sk.decls_in(self.sk.de(callee).owns, "param").len()
+    }
+    fn type_path(&mut self, f: usize, d: usize) {
+        let ty = self.sk.de(d).ty.clone();
+        for (i, r) in ty.iter().enumerate() {
+            if i > 0 {
+                self.put(f, ".");
+            }
+            self.r(f, *r);
+        }
+    }
+    fn var_blocks(&mut self, f: usize, s: usize, fixed: &str) {
+        let sk = self.sk;
+        let exts: Vec<usize> = sk.stmts.iter().filter(|st| st.scope == s && st.form == "ext").map(|st| st.refs[0]).collect();
+        if !exts.is_empty() {
+            self.put(f, "VAR_EXTERNAL\n");
+            for e in exts {
+                self.put(f, "  ");
+                self.r(f, e);
+                self.put(f, " : DINT;\n");
+            }
+            self.put(f, "END_VAR\n");
+        }
+        let params = sk.decls_in(s, "param");
+        let is_fb = sk.sc(s).kind == "fb";
+        if !params.is_empty() || is_fb {
+            self.put(f, "VAR_INPUT\n");
+            if is_fb {
+                self.put(f, "  zin : DINT;\n"); // (the run-time refuses a call without any argument)
+            }
+            for p in params {
+                self.put(f, "  ");
+                self.d(f, p);
+                self.put(f, " : DINT;\n");
+            }
+            self.put(f, "END_VAR\n");
+        }
+        if sk.sc(s).kind == "fb" {
+            self.put(f, "VAR_OUTPUT\n  zo : DINT;\n");
+            for o in sk.decls_in(s, "outvar") {
+                self.put(f, "  ");
+                self.d(f, o);
+                self.put(f, " : DINT;\n");
+            }
+            self.put(f, "END_VAR\n");
+        }
+        self.put(f, "VAR\n");
+        self.put(f, fixed);
+        for d in 1..=sk.decls.len() {
+            let de = sk.de(d);
+            if de.scope != s {
+                continue;
+            }
+            match de.kind.as_str() {
+                "var" => {
+                    self.put(f, "  ");
+                    self.d(f, d);
+                    self.put(f, &format!(" : DINT := {};\n", de.init));
+                }
+                "svar" | "inst" => {
+                    self.put(f, "  ");
+                    self.d(f, d);
+                    self.put(f, " : ");
+                    self.type_path(f, d);
+                    self.put(f, ";\n");
+                }
+                _ => {}
+            }
+        }
+        self.put(f, "END_VAR\n");
+    }
+    fn args(&mut self, f: usize, st: &St, named_from: usize, n: usize) {
+        self.put(f, "(");
+        for i in 0..n {
+            if i > 0 {
+                self.put(f, ", ");
+            }
+            if named_from > 0 {
+                self.r(f, st.refs[named_from + i]);
+                self.put(f, " := ");
+            }
+            self.put(f, &format!("{}", st.k + i as i64));
+        }
+        self.put(f, ")");
+    }
+    fn body(&mut self, f: usize, s: usize, acc: &str) {
+        let sk = self.sk;
+        for st in sk.stmts.iter().filter(|st| st.scope == s) {
+            let lead = format!("{acc} := {acc} * 3 + ");
+            match st.form.as_str() {
+                "value" => {
+                    self.put(f, &lead);
+                    self.r(f, st.refs[0]);
+                    self.put(f, ";\n");
+                }
+                "call" | "callnamed" => {
+                    self.put(f, &lead);
+                    self.r(f, st.refs[0]);
+                    let n = self.nparams(sk.re(st.refs[0]).tgt);
+                    self.args(f, st, if st.form == "callnamed" { 1 } else { 0 }, n);
+                    self.put(f, ";\n");
+                }
+                "qcall" => {
+                    self.put(f, &lead);
+                    self.r(f, st.refs[0]);
+                    self.put(f, ".");
+                    self.r(f, st.refs[1]);
+                    let n = self.nparams(sk.re(st.refs[1]).tgt);
+                    self.args(f, st, 0, n);
+                    self.put(f, ";\n");
+                }
+                "fset" => {
+                    self.r(f, st.refs[0]);
+                    self.put(f, ".");
+                    self.r(f, st.refs[1]);
+                    self.put(f, &format!(" := {};\n", st.k + 10));
+                }
+                "fget" | "fbout" => {
+                    self.put(f, &lead);
+                    self.r(f, st.refs[0]);
+                    self.put(f, ".");
+                    self.r(f, st.refs[1]);
+                    self.put(f, ";\n");
+                }
+                "mcall" => {
+                    self.put(f, &lead);
+                    self.r(f, st.refs[0]);
+                    self.put(f, ".");
+                    self.r(f, st.refs[1]);
+                    let n = self.nparams(sk.re(st.refs[1]).tgt);
+                    self.args(f, st, 0, n);
+                    self.put(f, ";\n");
+                }
+                "fbcall" => {
+                    self.r(f, st.refs[0]);
+                    self.put(f, &format!("(zin := {}", st.k + 1));
+                    if st.refs.len() > 2 {
+                        self.put(f, ", ");
+                        self.r(f, st.refs[2]);
+                        self.put(f, &format!(" := {}", st.k));
+                    }
+                    self.put(f, ");\n");
+                    self.put(f, &lead);
+                    self.r(f, st.refs[1]);
+                    self.put(f, ".zo;\n");
+                }
+                "oset" => {
+                    self.r(f, st.refs[0]);
+                    self.put(f, &format!(" := {acc} + {};\n", st.k));
+                }
+                "ret" => {
+                    self.r(f, st.refs[0]);
+                    self.put(f, &format!(" := {acc};\n"));
+                }
+                _ => {}
+            }
+        }
+    }
+    fn callable(&mut self, f: usize, d: usize, kw: &str, end: &str) {
+        let s = self.sk.de(d).owns;
+        self.put(f, kw);
+        self.d(f, d);
+        self.put(f, " : DINT\n");
+        self.var_blocks(f, s, "  zacc : DINT;\n");
+        self.put(f, &format!("zacc := {};\n", 1 + (d as i64 % 7)));
+        self.body(f, s, "zacc");
+        self.put(f, end);
+    }
+    fn unit(&mut self, d: usize) {
+        let sk = self.sk;
+        let de = sk.de(d);
+        let s = de.owns;
+        if s == 0 {
+            return; // not a unit (a global variable: rendered in the configuration)
+        }
+        let f = sk.sc(s).file;
+        match de.kind.as_str() {
+            "function" => self.callable(f, d, "FUNCTION ", "END_FUNCTION\n\n"),
+            "struct" => {
+                self.put(f, "TYPE ");
+                self.d(f, d);
+                self.put(f, " :\nSTRUCT\n");
+                for fl in sk.decls_in(s, "field") {
+                    self.put(f, "  ");
+                    self.d(f, fl);
+                    self.put(f, " : DINT;\n");
+                }
+                self.put(f, "END_STRUCT\nEND_TYPE\n\n");
+            }
+            "namespace" => {
+                self.put(f, "NAMESPACE ");
+                self.d(f, d);
+                self.put(f, "\n");
+                for e in 1..=sk.decls.len() {
+                    if sk.de(e).scope == s {
+                        self.unit(e);
+                    }
+                }
+                self.put(f, "END_NAMESPACE\n\n");
+            }
+            "fb" => {
+                self.put(f, "FUNCTION_BLOCK ");
+                self.d(f, d);
+                self.put(f, "\n");
+                self.var_blocks(f, s, "");
+                for m in sk.decls_in(s, "method") {
+                    self.callable(f, m, "METHOD PUBLIC ", "END_METHOD\n");
+                }
+                self.put(f, &format!("zo := zin + {};\n", 2 + (d as i64 % 5)));
+                self.body(f, s, "zo");
+                self.put(f, "END_FUNCTION_BLOCK\n\n");
+            }
+            "program" => {
+                self.put(f, "PROGRAM ");
+                self.d(f, d);
+                self.put(f, "\n");
+                self.var_blocks(f, s, &format!("  zq{s} : DINT;\n  zi{s} : DINT;\n"));
+                self.put(f, &format!("zq{s} := zi{s};\n"));
+                self.body(f, s, &format!("zq{s}"));
+                self.put(f, "END_PROGRAM\n\n");
+            }
+            _ => {}
         }
     }
 }
 
-fn outputs(texts: &[String], outs: &[String]) -> String {
-    let refs: Vec<&str> = texts.iter().map(String::as_str).collect();
-    match TestHarness::from_sources(&refs) {
-        Err(e) => format!("compile error: {e}"),
-        Ok(mut h) => {
-            let mut s = String::new();
-            for c in 0..3 {
-                let r = h.cycle();
-                s.push_str(&format!("cycle{c} errs={:?}:", r.errors));
-                for o in outs {
-                    s.push_str(&format!(" {o}={:?}", h.get_output(o)));
-                }
-                s.push('\n');
-            }
-            s
+/// The Structured Text project of a script.  `cs_seed` fixes the spelling (case variants).
+pub fn render(sk: &Skel, names: &[String], cs_seed: u64) -> Rendered {
+    let mut rng = StdRng::seed_from_u64(cs_seed ^ 0x5be11);
+    let cs_d: Vec<u8> = (0..sk.decls.len()).map(|_| if rng.gen_bool(0.5) { 0 } else { rng.gen_range(1..3) }).collect();
+    let sp_d: Vec<String> = (0..sk.decls.len()).map(|i| spell(&ident_of(&names[i]), cs_d[i])).collect();
+    // Most projects spell every occurrence of a symbol like its declaration: the run-time
+    // resolves some names case-sensitively, so a project with mixed spellings usually stops
+    // with a run-time error in the first cycle (its behaviour is then compared all the same).
+    let mixed = rng.gen_bool(0.2);
+    let sp_r: Vec<String> = sk
+        .refs
+        .iter()
+        .map(|r| {
+            let cs = if !mixed || rng.gen_bool(0.6) { cs_d[r.tgt - 1] } else { rng.gen_range(0..3) };
+            spell(&ident_of(&names[r.tgt - 1]), cs)
+        })
+        .collect();
+    let mut rn = Rn { sk, sp_d, sp_r, texts: vec![String::new(); sk.nfiles.max(1)], sites: vec![] };
+    for f in 0..rn.texts.len() {
+        rn.put(f, &format!("(* C16 scenario, file {f} *)\n"));
+    }
+    let gvars = sk.decls_in(1, "gvar");
+    if !gvars.is_empty() {
+        let f = sk.cfgfile;
+        rn.put(f, "CONFIGURATION ZConf\nVAR_GLOBAL\n");
+        for g in gvars {
+            rn.put(f, "  ");
+            rn.d(f, g);
+            rn.put(f, &format!(" : DINT := {};\n", sk.de(g).init));
         }
+        rn.put(f, "END_VAR\n");
+        for (i, st) in sk.stmts.iter().filter(|st| st.form == "cfgprog").enumerate() {
+            rn.put(f, &format!("PROGRAM zI{i} : "));
+            rn.r(f, st.refs[0]);
+            rn.put(f, ";\n");
+        }
+        rn.put(f, "END_CONFIGURATION\n\n");
+    }
+    for d in 1..=sk.decls.len() {
+        if sk.de(d).scope == 1 {
+            rn.unit(d);
+        }
+    }
+    let progs: Vec<usize> = sk.decls_in(1, "program").iter().map(|&p| sk.de(p).owns).collect();
+    Rendered { texts: rn.texts, sites: rn.sites, outs: progs.iter().map(|s| format!("zq{s}")).collect(), ins: progs.iter().map(|s| format!("zi{s}")).collect() }
+}
+
+// ------------------------------------------------------------------ observation of the real code
+static LAST_PANIC: Mutex<String> = Mutex::new(String::new());
+
+fn guarded<R>(f: impl FnOnce() -> R) -> Result<R, String> {
+    catch_unwind(AssertUnwindSafe(f)).map_err(|e| {
+        let msg = e.downcast_ref::<&str>().map(|s| s.to_string()).or_else(|| e.downcast_ref::<String>().cloned()).unwrap_or_default();
+        let loc = LAST_PANIC.lock().map(|s| s.clone()).unwrap_or_default();
+        format!("{msg} @ {loc}")
+    })
+}
+
+fn database(texts: &[String]) -> Database {
+    let mut db = Database::new();
+    for (i, t) in texts.iter().enumerate() {
+        db.set_source_text(FileId(i as u32), t.clone());
+    }
+    db
+}
+
+/// One diagnostic, with the renamed identifier abstracted away: (file, start, end, code,
+/// severity, message with every spelling of the old / new name replaced).
+type Diag = (usize, usize, usize, String, String, String);
+
+fn strip_names(msg: &str, names: &[&str]) -> String {
+    let mut out = String::new();
+    let mut tok = String::new();
+    let flush = |tok: &mut String, out: &mut String| {
+        if !tok.is_empty() {
+            if names.iter().any(|n| !n.is_empty() && n.eq_ignore_ascii_case(tok)) {
+                out.push('\u{a7}');
+            } else {
+                out.push_str(tok);
+            }
+            tok.clear();
+        }
+    };
+    for c in msg.chars() {
+        if c.is_ascii_alphanumeric() || c == '_' {
+            tok.push(c);
+        } else {
+            flush(&mut tok, &mut out);
+            out.push(c);
+        }
+    }
+    flush(&mut tok, &mut out);
+    out
+}
+
+fn diagnostics(db: &Database, nfiles: usize, names: &[&str], map: &dyn Fn(usize, usize) -> usize) -> (Vec<Diag>, usize) {
+    let mut v = vec![];
+    let mut errors = 0;
+    for f in 0..nfiles {
+        for d in db.diagnostics(FileId(f as u32)).iter() {
+            if d.is_error() {
+                errors += 1;
+            }
+            let (a, b): (u32, u32) = (d.range.start().into(), d.range.end().into());
+            v.push((f, map(f, a as usize), map(f, b as usize), format!("{:?}", d.code), format!("{:?}", d.severity), strip_names(&d.message, names)));
+        }
+    }
+    v.sort();
+    (v, errors)
+}
+
+/// Observed behaviour: per cycle the cycle errors (names abstracted) and every program output.
+#[derive(Clone, Debug, PartialEq)]
+struct Beh {
+    compile_error: Option<String>,
+    cycles: Vec<(String, Vec<Option<i64>>)>,
+}
+impl Beh {
+    fn clean(&self) -> bool {
+        self.compile_error.is_none() && self.cycles.iter().all(|(e, v)| e == "[]" && v.iter().all(Option::is_some))
+    }
+    fn outputs(&self) -> Vec<Vec<Option<i64>>> {
+        self.cycles.iter().map(|c| c.1.clone()).collect()
+    }
+    fn text(&self) -> String {
+        match &self.compile_error {
+            Some(e) => format!("compile error: {e}"),
+            None => self.cycles.iter().enumerate().map(|(c, (e, v))| format!("cycle {c}: errors={e} outputs={v:?}\n")).collect(),
+        }
+    }
+}
+const CYCLES: i32 = 3;
+fn input_of(cycle: i32, prog: usize) -> i32 {
+    cycle * 7 + prog as i32 + 1
+}
+
+/// Behaviour of the real run-time on the input trace.
+fn behaviour(texts: &[String], r: &Rendered, names: &[&str]) -> Beh {
+    let refs: Vec<&str> = texts.iter().map(String::as_str).collect();
+    let mut h = match TestHarness::from_sources(&refs) {
+        Ok(h) => h,
+        Err(e) => return Beh { compile_error: Some(strip_names(&e.to_string(), names)), cycles: vec![] },
+    };
+    let mut cycles = vec![];
+    for c in 0..CYCLES {
+        for (i, n) in r.ins.iter().enumerate() {
+            h.set_input(n, Value::DInt(input_of(c, i)));
+        }
+        let res = h.cycle();
+        let outs = r
+            .outs
+            .iter()
+            .map(|o| match h.get_output(o) {
+                Some(Value::DInt(v)) => Some(v as i64),
+                _ => None,
+            })
+            .collect();
+        cycles.push((strip_names(&format!("{:?}", res.errors), names), outs));
+    }
+    Beh { compile_error: None, cycles }
+}
+
+/// Reference evaluation of the rendered project under the specification's semantics: every
+/// reference denotes the declaration it is meant to denote (lexical scoping, member lookup),
+/// DINT arithmetic.  Used ONLY to decide whether the behaviour oracle applies to a project:
+/// where the real run-time does not execute the ORIGINAL project like this (it resolves some
+/// names case-sensitively or by name alone, and does not execute namespace-qualified calls),
+/// outputs before and after a rename are not compared.  `None`: arithmetic overflow.
+struct RefEval<'a> {
+    sk: &'a Skel,
+    fields: BTreeMap<(usize, usize), i64>,
+    fb_out: BTreeMap<(usize, usize), i64>,
+    fb_par: BTreeMap<(usize, usize), i64>,
+    fb_zo: BTreeMap<usize, i64>,
+}
+impl<'a> RefEval<'a> {
+    fn step(acc: i64, x: i64) -> Option<i64> {
+        let v = (acc as i32).checked_mul(3)?.checked_add(i32::try_from(x).ok()?)?;
+        Some(v as i64)
+    }
+    fn value(&self, d: usize, locals: &BTreeMap<usize, i64>, inst: Option<usize>) -> i64 {
+        let de = self.sk.de(d);
+        match de.kind.as_str() {
+            "param" if self.sk.sc(de.scope).kind == "fb" => inst.and_then(|i| self.fb_par.get(&(i, d)).copied()).unwrap_or(0),
+            "param" => locals.get(&d).copied().unwrap_or(0),
+            "outvar" => inst.and_then(|i| self.fb_out.get(&(i, d)).copied()).unwrap_or(0),
+            _ => de.init, // var / gvar: never assigned
+        }
+    }
+    fn type_of(&self, v: usize) -> usize {
+        self.sk.re(*self.sk.de(v).ty.last().unwrap()).tgt
+    }
+    /// The statements of `scope` applied to `acc`; `inst`: the FB instance whose body / method runs.
+    fn body(&mut self, scope: usize, mut acc: i64, locals: &BTreeMap<usize, i64>, inst: Option<usize>) -> Option<i64> {
+        let sk = self.sk;
+        for st in sk.stmts.iter().filter(|st| st.scope == scope) {
+            let tgt = |i: usize| sk.re(st.refs[i]).tgt;
+            let args = |callee: usize| -> Vec<i64> { (0..sk.decls_in(sk.de(callee).owns, "param").len()).map(|i| st.k + i as i64).collect() };
+            match st.form.as_str() {
+                "value" => acc = Self::step(acc, self.value(tgt(0), locals, inst))?,
+                "call" | "callnamed" => {
+                    let f = tgt(0);
+                    // a method called from its own function block runs on the same instance
+                    let v = self.call(f, &args(f), if sk.de(f).kind == "method" { inst } else { None })?;
+                    acc = Self::step(acc, v)?;
+                }
+                "qcall" => {
+                    let f = tgt(1);
+                    let v = self.call(f, &args(f), None)?;
+                    acc = Self::step(acc, v)?;
+                }
+                "fset" => {
+                    self.fields.insert((tgt(0), tgt(1)), st.k + 10);
+                }
+                "fget" => acc = Self::step(acc, self.fields.get(&(tgt(0), tgt(1))).copied().unwrap_or(0))?,
+                "fbout" => acc = Self::step(acc, self.fb_out.get(&(tgt(0), tgt(1))).copied().unwrap_or(0))?,
+                "mcall" => {
+                    let m = tgt(1);
+                    let v = self.call(m, &args(m), Some(tgt(0)))?;
+                    acc = Self::step(acc, v)?;
+                }
+                "fbcall" => {
+                    let i = tgt(0);
+                    if st.refs.len() > 2 {
+                        self.fb_par.insert((i, tgt(2)), st.k);
+                    }
+                    let fb = self.type_of(i);
+                    let zo = self.body(sk.de(fb).owns, st.k + 1 + 2 + (fb as i64 % 5), &BTreeMap::new(), Some(i))?;
+                    self.fb_zo.insert(i, zo);
+                    acc = Self::step(acc, zo)?;
+                }
+                "oset" => {
+                    if let Some(i) = inst {
+                        self.fb_out.insert((i, tgt(0)), i64::from(i32::try_from(acc + st.k).ok()?));
+                    }
+                }
+                _ => {} // ret / ext / cfgprog: no effect on the accumulator
+            }
+        }
+        Some(acc)
+    }
+    fn call(&mut self, f: usize, args: &[i64], inst: Option<usize>) -> Option<i64> {
+        let scope = self.sk.de(f).owns;
+        let locals: BTreeMap<usize, i64> = self.sk.decls_in(scope, "param").into_iter().zip(args.iter().copied()).collect();
+        self.body(scope, 1 + (f as i64 % 7), &locals, inst)
+    }
+}
+fn reference_outputs(sk: &Skel) -> Option<Vec<Vec<Option<i64>>>> {
+    let mut ev = RefEval { sk, fields: BTreeMap::new(), fb_out: BTreeMap::new(), fb_par: BTreeMap::new(), fb_zo: BTreeMap::new() };
+    let progs: Vec<usize> = sk.decls_in(1, "program").iter().map(|&p| sk.de(p).owns).collect();
+    let mut out = vec![];
+    for c in 0..CYCLES {
+        let mut row = vec![];
+        for (i, &s) in progs.iter().enumerate() {
+            row.push(Some(ev.body(s, input_of(c, i) as i64, &BTreeMap::new(), None)?));
+        }
+        out.push(row);
+    }
+    Some(out)
+}
+
+fn is_ident_char(c: u8) -> bool {
+    c.is_ascii_alphanumeric() || c == b'_'
+}
+
+struct Applied {
+    texts: Vec<String>,
+    /// edits per file: (start, end, new length), ascending
+    edits: Vec<Vec<(usize, usize, usize)>>,
+}
+impl Applied {
+    fn map(&self, f: usize, pos: usize) -> usize {
+        let mut p = pos as i64;
+        for &(a, b, n) in &self.edits[f] {
+            if b <= pos {
+                p += n as i64 - (b - a) as i64;
+            } else if a < pos {
+                p = p - (pos - a) as i64 + (n.min(pos - a)) as i64; // inside an edit
+            }
+        }
+        p.max(0) as usize
+    }
+}
+
+/// Checks the edits (in bounds, on character boundaries, pairwise disjoint, each replacing
+/// exactly one identifier token by `new`) and applies them.
+fn apply_edits(texts: &[String], raw: &[(usize, usize, usize, String)], new: &str) -> Result<Applied, String> {
+    let mut per: Vec<Vec<(usize, usize, usize)>> = vec![vec![]; texts.len()];
+    for (f, a, b, t) in raw {
+        if *f >= texts.len() {
+            return Err(format!("edit in unknown file {f}"));
+        }
+        let tx = texts[*f].as_bytes();
+        if a > b || *b > tx.len() {
+            return Err(format!("edit {a}..{b} out of bounds (file {f}, {} bytes)", tx.len()));
+        }
+        if !texts[*f].is_char_boundary(*a) || !texts[*f].is_char_boundary(*b) {
+            return Err(format!("edit {a}..{b} not on character boundaries"));
+        }
+        if a == b || !tx[*a..*b].iter().all(|c| is_ident_char(*c)) || tx[*a].is_ascii_digit() {
+            return Err(format!("edit {a}..{b} in file {f} does not cover an identifier: {:?}", &texts[*f][*a..*b]));
+        }
+        if (*a > 0 && is_ident_char(tx[*a - 1])) || (*b < tx.len() && is_ident_char(tx[*b])) {
+            return Err(format!("edit {a}..{b} in file {f} covers only part of an identifier"));
+        }
+        if t != new {
+            return Err(format!("edit {a}..{b} inserts {t:?}, not the new name {new:?}"));
+        }
+        per[*f].push((*a, *b, t.len()));
+    }
+    for v in per.iter_mut() {
+        v.sort();
+        for w in v.windows(2) {
+            if w[1].0 < w[0].1 {
+                return Err(format!("edits {}..{} and {}..{} overlap", w[0].0, w[0].1, w[1].0, w[1].1));
+            }
+        }
+    }
+    let mut out = texts.to_vec();
+    for (f, v) in per.iter().enumerate() {
+        for &(a, b, _) in v.iter().rev() {
+            out[f].replace_range(a..b, new);
+        }
+    }
+    Ok(Applied { texts: out, edits: per })
+}
+
+fn raw_edits(res: &trust_ide::rename::RenameResult) -> Vec<(usize, usize, usize, String)> {
+    let mut v: Vec<(usize, usize, usize, String)> = vec![];
+    for (fid, eds) in &res.edits {
+        for e in eds {
+            v.push((fid.0 as usize, u32::from(e.range.start()) as usize, u32::from(e.range.end()) as usize, e.new_text.clone()));
+        }
+    }
+    v.sort();
+    v
+}
+
+// ------------------------------------------------------------------ running a script
+fn run_script(sc: &J, o: &mut Out, det: &mut Option<Out>) {
+    let sk: Skel = serde_json::from_value(sc["sk"].clone()).expect("script skeleton");
+    let names: Vec<String> = sc["names"].as_array().expect("names").iter().map(|n| n.as_str().unwrap().to_string()).collect();
+    let seed = sc["seed"].as_u64().unwrap_or(0);
+    assert_eq!(names.len(), sk.decls.len(), "one name per declaration slot");
+    let r = render(&sk, &names, seed);
+    // the static configuration the specification needs: the abstract project
+    let par: Vec<usize> = sk.scopes.iter().map(|s| s.parent).collect();
+    let file_of = |d: usize| r.sites.iter().find(|s| s.occ == Occ::D(d)).map(|s| s.file).unwrap_or(0);
+    let decls: Vec<J> = (1..=sk.decls.len()).map(|d| json!({"id": d, "scope": sk.de(d).scope, "name": names[d - 1], "kind": sk.de(d).kind, "file": file_of(d), "owns": sk.de(d).owns})).collect();
+    let kinds: Vec<&str> = sk.scopes.iter().map(|s| s.kind.as_str()).collect();
+    let refs: Vec<J> = (1..=sk.refs.len()).map(|i| json!({"id": i, "site": sk.re(i).site, "name": names[sk.re(i).tgt - 1], "mode": sk.re(i).mode, "role": sk.re(i).role})).collect();
+    o.line(&json!({"a": "Reset", "par": par, "kinds": kinds, "decls": decls, "refs": refs}));
+    o.flush();
+    let mut detail = json!({"texts": r.texts, "requests": []});
+    let finish = |det: &mut Option<Out>, detail: &J| {
+        if let Some(d) = det {
+            d.line(detail);
+            d.flush();
+        }
+    };
+    let nfiles = r.texts.len();
+    // the property quantifies over error-free projects: analysis without errors, compiles
+    let pre = guarded(|| {
+        let db = database(&r.texts);
+        let (d0, errs) = diagnostics(&db, nfiles, &[], &|_, p| p);
+        (db, d0, errs, behaviour(&r.texts, &r, &[]))
+    });
+    let (db, _d0, errs, beh0) = match pre {
+        Ok(x) => x,
+        Err(m) => {
+            o.line(&json!({"a": "Check", "res": "original-panics", "runs": false, "ref": false}));
+            detail["skip"] = json!(format!("analysis / execution of the ORIGINAL project panics: {m}"));
+            finish(det, &detail);
+            return;
+        }
+    };
+    if errs > 0 || beh0.compile_error.is_some() {
+        let why = if errs > 0 { "original-has-errors" } else { "original-does-not-compile" };
+        o.line(&json!({"a": "Check", "res": why, "runs": false, "ref": false}));
+        let (dd, _) = diagnostics(&db, nfiles, &[], &|_, p| p);
+        detail["skip"] = json!({"why": why, "diagnostics": format!("{dd:?}"), "behaviour": beh0.text()});
+        finish(det, &detail);
+        return;
+    }
+    // The behaviour oracle applies where the run-time executes the ORIGINAL project cleanly and
+    // as the specification's semantics say (see RefEval); elsewhere outputs are not compared.
+    let clean = beh0.clean();
+    let expected = reference_outputs(&sk);
+    let comparable = clean && expected.as_ref() == Some(&beh0.outputs());
+    detail["behaviour"] = json!({"observed": beh0.text(), "reference": format!("{expected:?}"), "compared": comparable});
+    o.line(&json!({"a": "Check", "res": "ready", "runs": clean, "ref": comparable}));
+    let mut rng = StdRng::seed_from_u64(seed ^ 0x9e3779b9);
+    for rq in sc["reqs"].as_array().expect("reqs") {
+        let (t, id) = (rq["t"].as_str().unwrap(), rq["id"].as_u64().unwrap() as usize);
+        let occ = if t == "d" { Occ::D(id) } else { Occ::R(id) };
+        let cls = rq["cls"].as_str().unwrap();
+        let new_model = rq["new"].as_str().unwrap();
+        // the concrete choices (spelling of the new name, cursor offset inside the identifier) are
+        // drawn here unless the request carries them (a replay file does)
+        let drawn = match cls {
+            "keyword" => KEYWORDS[rng.gen_range(0..KEYWORDS.len())].to_string(),
+            "invalid" => INVALID[rng.gen_range(0..INVALID.len())].to_string(),
+            _ => spell(&ident_of(new_model), rng.gen_range(0..3)),
+        };
+        let new_sp = rq["sp"].as_str().map(str::to_string).unwrap_or(drawn);
+        let site = r.sites.iter().find(|s| s.occ == occ).expect("occurrence is rendered").clone();
+        let drawn_off = rng.gen_range(0..(site.end - site.start));
+        let drawn_boff: usize = rng.gen_range(0..64);
+        let off = rq["off"].as_u64().map(|x| x as usize).unwrap_or(drawn_off).min(site.end - site.start - 1);
+        let boff = rq["boff"].as_u64().map(|x| x as usize).unwrap_or(drawn_boff);
+        let pos = site.start + off;
+        let old_sp = r.texts[site.file][site.start..site.end].to_string();
+        let mut ev = json!({"a": "Rename", "ot": t, "oid": id, "file": site.file, "new": new_model, "cls": cls, "res": "refused",
+            "ed": [], "er": [], "unk": 0, "wf": true, "diag": true, "beh": true});
+        let mut back = json!({"a": "Back", "res": "none"});
+        let mut dq = json!({"occ": {"t": t, "id": id}, "file": site.file, "offset": pos, "old": old_sp, "new": new_sp, "cls": cls,
+            "request": {"t": t, "id": id, "new": new_model, "cls": cls, "sp": new_sp, "off": off, "boff": boff}});
+        match guarded(|| trust_ide::rename::rename(&db, FileId(site.file as u32), TextSize::from(pos as u32), &new_sp)) {
+            Err(m) => {
+                ev["res"] = json!("panic");
+                dq["panic"] = json!(m);
+            }
+            Ok(None) => {}
+            Ok(Some(res)) => {
+                ev["res"] = json!("applied");
+                let raw = raw_edits(&res);
+                dq["edits"] = json!(raw.iter().map(|(f, a, b, t)| json!({"file": f, "start": a, "end": b, "text": t})).collect::<Vec<_>>());
+                // which occurrences were replaced
+                let (mut ed, mut er, mut unk) = (BTreeSet::new(), BTreeSet::new(), 0);
+                for (f, a, b, _) in &raw {
+                    match r.sites.iter().find(|s| s.file == *f && s.start == *a && s.end == *b) {
+                        Some(Site { occ: Occ::D(d), .. }) => {
+                            ed.insert(*d);
+                        }
+                        Some(Site { occ: Occ::R(x), .. }) => {
+                            er.insert(*x);
+                        }
+                        None => unk += 1,
+                    }
+                }
+                ev["ed"] = json!(ed);
+                ev["er"] = json!(er);
+                ev["unk"] = json!(unk);
+                match apply_edits(&r.texts, &raw, &new_sp) {
+                    Err(m) => {
+                        ev["wf"] = json!(false);
+                        dq["malformed"] = json!(m);
+                    }
+                    Ok(ap) => {
+                        let strip = [old_sp.as_str(), new_sp.as_str()];
+                        let after = guarded(|| {
+                            let db2 = database(&ap.texts);
+                            let (d2, _) = diagnostics(&db2, nfiles, &strip, &|_, p| p);
+                            let (d1, _) = diagnostics(&db, nfiles, &strip, &|f, p| ap.map(f, p));
+                            (db2, d1, d2, behaviour(&ap.texts, &r, &strip), behaviour(&r.texts, &r, &strip))
+                        });
+                        match after {
+                            Err(m) => {
+                                ev["diag"] = json!(false);
+                                dq["panicAfter"] = json!(m);
+                            }
+                            Ok((db2, d1, d2, beh2, beh0)) => {
+                                if d1 != d2 {
+                                    ev["diag"] = json!(false);
+                                    let only1: Vec<&Diag> = d1.iter().filter(|x| !d2.contains(x)).collect();
+                                    let only2: Vec<&Diag> = d2.iter().filter(|x| !d1.contains(x)).collect();
+                                    dq["diagOnlyBefore"] = json!(format!("{only1:?}"));
+                                    dq["diagOnlyAfter"] = json!(format!("{only2:?}"));
+                                }
+                                if comparable && beh2 != beh0 {
+                                    ev["beh"] = json!(false);
+                                    dq["behBefore"] = json!(beh0.text());
+                                    dq["behAfter"] = json!(beh2.text());
+                                }
+                                // rename back: at the cursor occurrence if it was replaced, else at the first edit
+                                let cursor = raw.iter().find(|(f, a, b, _)| *f == site.file && *a == site.start && *b == site.end).or(raw.first());
+                                if let Some((f, a, b, _)) = cursor {
+                                    let old_here = r.texts[*f][*a..*b].to_string();
+                                    let npos = ap.map(*f, *a) + boff % new_sp.len().max(1);
+                                    dq["back"] = json!({"file": f, "offset": npos, "to": old_here});
+                                    match guarded(|| trust_ide::rename::rename(&db2, FileId(*f as u32), TextSize::from(npos as u32), &old_here)) {
+                                        Err(m) => {
+                                            back["res"] = json!("panic");
+                                            dq["backPanic"] = json!(m);
+                                        }
+                                        Ok(None) => back["res"] = json!("refused"),
+                                        Ok(Some(res2)) => {
+                                            let raw2 = raw_edits(&res2);
+                                            match apply_edits(&ap.texts, &raw2, &old_here) {
+                                                Err(m) => {
+                                                    back["res"] = json!("differs");
+                                                    dq["backMalformed"] = json!(m);
+                                                }
+                                                Ok(ap2) => {
+                                                    // occurrences of one symbol may be spelled in different cases; no
+                                                    // rename can bring those spellings back, so they are compared case-folded
+                                                    let mixed = raw.iter().any(|(f2, a2, b2, _)| r.texts[*f2][*a2..*b2] != old_here);
+                                                    let same = if mixed {
+                                                        ap2.texts.iter().zip(&r.texts).all(|(x, y)| x.eq_ignore_ascii_case(y))
+                                                    } else {
+                                                        ap2.texts == r.texts
+                                                    };
+                                                    back["res"] = json!(if same { "restored" } else { "differs" });
+                                                    if !same {
+                                                        dq["backTexts"] = json!(ap2.texts);
+                                                    }
+                                                }
+                                            }
+                                        }
+                                    }
+                                }
+                            }
+                        }
+                        dq["textsAfter"] = json!(ap.texts);
+                    }
+                }
+            }
+        }
+        dq["event"] = ev.clone();
+        dq["backEvent"] = back.clone();
+        detail["requests"].as_array_mut().unwrap().push(dq);
+        o.line(&ev);
+        o.line(&back);
+        o.flush();
+    }
+    finish(det, &detail);
+}
+
+fn child(args: &[String]) -> i32 {
+    // 6 GiB of address space: a runaway allocation ends the child, not the machine
+    unsafe {
+        let lim = libc::rlimit { rlim_cur: 6 << 30, rlim_max: 6 << 30 };
+        libc::setrlimit(libc::RLIMIT_AS, &lim);
+    }
+    std::panic::set_hook(Box::new(|info| {
+        if let Ok(mut s) = LAST_PANIC.lock() {
+            *s = info.location().map(|l| format!("{}:{}", l.file(), l.line())).unwrap_or_default();
+        }
+        eprintln!("{info}"); // (the parent discards the child's stderr; visible when a child is run by hand)
+    }));
+    let scripts = read_ndjson(arg(args, "--scripts").expect("--scripts"));
+    let from = arg_u64(args, "--from", 0) as usize;
+    let to = (arg_u64(args, "--to", scripts.len() as u64) as usize).min(scripts.len());
+    let step = (arg_u64(args, "--step", 1) as usize).max(1);
+    let open = |p: &str| Out(std::io::BufWriter::new(std::fs::OpenOptions::new().append(true).create(true).open(p).expect("open part")));
+    let mut o = open(arg(args, "--out").expect("--out"));
+    let mut det = arg(args, "--detail").map(open);
+    for k in (from..to).step_by(step) {
+        run_script(&scripts[k], &mut o, &mut det);
+    }
+    o.flush();
+    0
+}
+
+fn merge(out: &str, jobs: usize, n: usize, first_line: &str) {
+    use std::io::{BufRead, Write};
+    let mut o = Out::create(out);
+    let mut readers: Vec<_> = (0..jobs)
+        .map(|j| std::io::BufReader::new(std::fs::File::open(format!("{out}.part{j}")).expect("open part")).lines().peekable())
+        .collect();
+    for i in 0..n {
+        let r = &mut readers[i % jobs];
+        let mut first = true;
+        loop {
+            let is_first = match r.peek() {
+                None => break,
+                Some(Ok(l)) => l.starts_with(first_line),
+                Some(Err(e)) => panic!("read part: {e}"),
+            };
+            if is_first && !first {
+                break;
+            }
+            if !is_first && first {
+                panic!("part {} does not continue with a new run for script {i}", i % jobs);
+            }
+            first = false;
+            let l = r.next().unwrap().unwrap();
+            // a line cut short by a dying child is dropped (the Panic event follows it)
+            if serde_json::from_str::<J>(&l).is_ok() {
+                writeln!(o.0, "{l}").unwrap();
+            }
+        }
+        if first {
+            panic!("part {} has no run for script {i}", i % jobs);
+        }
+    }
+    o.flush();
+    for j in 0..jobs {
+        let _ = std::fs::remove_file(format!("{out}.part{j}"));
     }
 }
 
 pub fn run(args: &[String]) -> i32 {
-    let p: J = serde_json::from_str(&std::fs::read_to_string(arg(args, "--probe").expect("--probe")).unwrap()).unwrap();
-    for case in p.as_array().unwrap() {
-        let texts: Vec<String> = case["files"].as_array().unwrap().iter().map(|t| t.as_str().unwrap().to_string()).collect();
-        let outs: Vec<String> = case["outs"].as_array().map(|a| a.iter().map(|x| x.as_str().unwrap().to_string()).collect()).unwrap_or_default();
-        println!("=================== {}", case["name"]);
-        let mut db = Database::new();
-        for (i, t) in texts.iter().enumerate() {
-            db.set_source_text(FileId(i as u32), t.clone());
+    if args.iter().any(|a| a == "--child") {
+        return child(args);
+    }
+    if let Some(p) = arg(args, "--try") {
+        // calibration aid: diagnostics and behaviour of hand-written projects
+        let cases: J = serde_json::from_str(&std::fs::read_to_string(p).expect("read")).expect("json");
+        for c in cases.as_array().unwrap() {
+            let texts: Vec<String> = c["files"].as_array().unwrap().iter().map(|t| t.as_str().unwrap().to_string()).collect();
+            let outs: Vec<String> = c["outs"].as_array().unwrap().iter().map(|t| t.as_str().unwrap().to_string()).collect();
+            let r = Rendered { texts: texts.clone(), sites: vec![], outs, ins: vec![] };
+            let db = database(&texts);
+            println!("=== {}\n{:?}\n{}", c["name"], diagnostics(&db, texts.len(), &[], &|_, p| p), behaviour(&texts, &r, &[]).text());
         }
-        show_diags(&db, texts.len());
-        print!("{}", outputs(&texts, &outs));
-        for r in case["renames"].as_array().map(|a| a.as_slice()).unwrap_or(&[]) {
-            let f = r["file"].as_u64().unwrap_or(0) as usize;
-            let pat = r["at"].as_str().unwrap();
-            let nth = r["nth"].as_u64().unwrap_or(0) as usize;
-            let off = r["off"].as_u64().unwrap_or(0) as usize;
-            let new = r["new"].as_str().unwrap();
-            let pos = nth_find(&texts[f], pat, nth).expect("pattern") + off;
-            println!("--- rename file{f} @{pos} ({pat:?}#{nth}+{off}) -> {new:?}");
-            let res = trust_ide::rename::rename(&db, FileId(f as u32), TextSize::from(pos as u32), new);
-            match res {
-                None => println!("   REFUSED"),
-                Some(res) => {
-                    let mut t2 = texts.clone();
-                    let mut fids: Vec<_> = res.edits.keys().copied().collect();
-                    fids.sort_by_key(|f| f.0);
-                    for fid in fids {
-                        let mut eds = res.edits[&fid].clone();
-                        eds.sort_by_key(|e| std::cmp::Reverse(u32::from(e.range.start())));
-                        for e in &eds {
-                            let (a, b) = (u32::from(e.range.start()) as usize, u32::from(e.range.end()) as usize);
-                            println!("   edit file{} {a}..{b} {:?} -> {:?}", fid.0, &texts[fid.0 as usize][a..b], e.new_text);
-                            t2[fid.0 as usize].replace_range(a..b, &e.new_text);
-                        }
-                    }
-                    let mut db2 = Database::new();
-                    for (i, t) in t2.iter().enumerate() {
-                        db2.set_source_text(FileId(i as u32), t.clone());
-                    }
-                    show_diags(&db2, t2.len());
-                    let outs2: Vec<String> = outs.iter().map(|o| if o.eq_ignore_ascii_case(r["old"].as_str().unwrap_or("\u{1}")) { new.to_string() } else { o.clone() }).collect();
-                    print!("{}", outputs(&t2, &outs2));
-                    if r["show"] == json!(true) {
-                        for t in &t2 {
-                            println!("{t}");
-                        }
-                    }
-                }
+        return 0;
+    }
+    let path = arg(args, "--scripts").expect("--scripts");
+    if args.iter().any(|a| a == "--show") {
+        for sc in read_ndjson(path) {
+            let sk: Skel = serde_json::from_value(sc["sk"].clone()).unwrap();
+            let names: Vec<String> = sc["names"].as_array().unwrap().iter().map(|n| n.as_str().unwrap().to_string()).collect();
+            let r = render(&sk, &names, sc["seed"].as_u64().unwrap_or(0));
+            for (i, t) in r.texts.iter().enumerate() {
+                println!("----- file {i}\n{t}");
             }
+            println!("sites: {:?}", r.sites);
+        }
+        return 0;
+    }
+    let out = arg(args, "--out").expect("--out");
+    let detail = arg(args, "--detail").map(str::to_string);
+    let n = read_ndjson(path).len();
+    let jobs = (arg_u64(args, "--jobs", 12) as usize).clamp(1, n.max(1));
+    let exe = std::env::current_exe().expect("current_exe");
+    // job j runs the scripts j, j + jobs, j + 2*jobs, .. in a chain of children
+    let handles: Vec<_> = (0..jobs)
+        .map(|j| {
+            let (exe, path, part) = (exe.clone(), path.to_string(), format!("{out}.part{j}"));
+            let dpart = detail.as_ref().map(|d| format!("{d}.part{j}"));
+            std::thread::spawn(move || -> Result<(), String> {
+                for p in [Some(part.clone()), dpart.clone()].into_iter().flatten() {
+                    let _ = std::fs::remove_file(&p);
+                    std::fs::File::create(&p).map_err(|e| e.to_string())?;
+                }
+                let mut started = 0usize; // scripts of this job begun so far
+                while j + started * jobs < n {
+                    let from = j + started * jobs;
+                    let mut cmd = std::process::Command::new(&exe);
+                    cmd.args(["rename-run", "--child", "--scripts", &path, "--out", &part, "--from", &from.to_string(), "--to", &n.to_string(), "--step", &jobs.to_string()]);
+                    if let Some(d) = &dpart {
+                        cmd.args(["--detail", d]);
+                    }
+                    let st = cmd.stderr(std::process::Stdio::null()).status().map_err(|e| e.to_string())?;
+                    if st.success() {
+                        break;
+                    }
+                    if st.code().is_some() {
+                        return Err(format!("child of job {j} (from script {from}) failed with {st}"));
+                    }
+                    // killed by a signal while a script was running: that is data
+                    let text = std::fs::read_to_string(&part).map_err(|e| e.to_string())?;
+                    let now = text.lines().filter(|l| l.starts_with("{\"a\":\"Reset\"")).count();
+                    if now <= started {
+                        return Err(format!("child of job {j} died with {st} before starting a script"));
+                    }
+                    use std::io::Write;
+                    let mut f = std::fs::OpenOptions::new().append(true).open(&part).map_err(|e| e.to_string())?;
+                    let tail_ok = text.is_empty() || text.ends_with('\n');
+                    writeln!(f, "{}{}", if tail_ok { "" } else { "\n" }, json!({"a": "Panic", "msg": format!("{st}")})).map_err(|e| e.to_string())?;
+                    if let Some(d) = &dpart {
+                        // keep the detail file aligned: one line per script
+                        let dt = std::fs::read_to_string(d).map_err(|e| e.to_string())?;
+                        let have = dt.lines().filter(|l| serde_json::from_str::<J>(l).is_ok()).count();
+                        let mut g = std::fs::OpenOptions::new().append(true).open(d).map_err(|e| e.to_string())?;
+                        if have < now {
+                            writeln!(g, "{}{}", if dt.is_empty() || dt.ends_with('\n') { "" } else { "\n" }, json!({"texts": [], "requests": [], "skip": "process died"})).map_err(|e| e.to_string())?;
+                        }
+                    }
+                    started = now;
+                }
+                Ok(())
+            })
+        })
+        .collect();
+    let mut rc = 0;
+    for h in handles {
+        match h.join() {
+            Ok(Ok(())) => {}
+            Ok(Err(e)) => {
+                eprintln!("rename-run: {e}");
+                rc = 2;
+            }
+            Err(_) => rc = 2,
         }
     }
+    if rc != 0 {
+        return rc;
+    }
+    merge(out, jobs, n, "{\"a\":\"Reset\"");
+    if let Some(d) = &detail {
+        // detail files hold exactly one line per script, in job order
+        use std::io::{BufRead, Write};
+        let mut o = Out::create(d);
+        let mut readers: Vec<_> = (0..jobs).map(|j| std::io::BufReader::new(std::fs::File::open(format!("{d}.part{j}")).expect("open detail part")).lines()).collect();
+        for i in 0..n {
+            let mut l = String::new();
+            while let Some(Ok(x)) = readers[i % jobs].next() {
+                if serde_json::from_str::<J>(&x).is_ok() {
+                    l = x;
+                    break;
+                }
+            }
+            if l.is_empty() {
+                l = json!({"texts": [], "requests": [], "skip": "no detail"}).to_string();
+            }
+            writeln!(o.0, "{l}").unwrap();
+        }
+        o.flush();
+        for j in 0..jobs {
+            let _ = std::fs::remove_file(format!("{d}.part{j}"));
+        }
+    }
+    let _ = BTreeMap::<u8, u8>::new();
     0
 }
